@@ -1,6 +1,6 @@
 SPECIFICATION XSpec
 CONSTANTS
- Mols <- MolsMassOnly
+ Mols <- MCMols
  Dev = "none"
  FixedOrder = TRUE
 INVARIANT LawsAtStart
